@@ -66,16 +66,26 @@ Definition handle_optional (p : bytes) : outcome qparams :=
     end
   end.
 
-(* copy(ip, ipbytes): overwrites the first min(len) bytes of the source-address
-   slice with the packet's IP field (today's behaviour, finding F3 belongs to C11) *)
+(* Which address the request carries (after "fix: UDP spoofing ..."): with spoofing
+   allowed a non-zero IP field of the packet is used verbatim (a fresh copy), an
+   all-zero field means "use the source address" (BEP 15); without spoofing always
+   the source address.  Second component: IPProvided. *)
+Definition all_zero (b : bytes) : bool := forallb (fun x => x =? 0) b.
+Definition choose_ip (o : popts) (src : option bytes) (ipb : bytes) : option bytes * bool :=
+  if o_spoof o && negb (all_zero ipb) then (Some ipb, true) else (src, false).
+
+(* the code before the fix: copy(ip, ipbytes) overwrote the first min(len) bytes of the
+   source-address slice with the packet's IP field whenever spoofing was allowed *)
 Definition copy_into (dst src : bytes) : bytes :=
   let n := Nat.min (length dst) (length src) in firstn n src ++ skipn n dst.
+Definition choose_ip_legacy (o : popts) (src : option bytes) (ipb : bytes) : option bytes * bool :=
+  if o_spoof o then (option_map (fun s => copy_into s ipb) src, true) else (src, false).
 
 (* everything ParseAnnounce does once the fields are cut out of the packet *)
 Definition announce_of_fields (o : popts) (src : option bytes)
            (ih pid dl lf ul : bytes) (ev : Z) (ipb nw port opts : bytes) : outcome (areq * qparams) :=
   if Z.of_nat (length event_ids) <=? ev then Reject errMalformedEvent else
-  let ip := if o_spoof o then option_map (fun s => copy_into s ipb) src else src in
+  let '(ip, provided) := choose_ip o src ipb in
   if negb (o_spoof o) && (match src with None => true | Some _ => false end) then Reject errMalformedIP else
   match handle_optional opts with
   | Panic => Panic
@@ -85,7 +95,7 @@ Definition announce_of_fields (o : popts) (src : option bytes)
     | None => Panic
     | Some e =>
       let req := {| r_event := e; r_ih := ih; r_compact := false;
-                    r_event_provided := true; r_numwant_provided := true; r_ip_provided := o_spoof o;
+                    r_event_provided := true; r_numwant_provided := true; r_ip_provided := provided;
                     r_numwant := be_dec nw; r_left := be_dec lf; r_downloaded := be_dec dl; r_uploaded := be_dec ul;
                     r_peer := {| p_id := pid; p_ip := match ip with Some i => i | None => [] end; p_port := be_dec port |};
                     r_af := V4 |} in
